@@ -89,8 +89,24 @@ fn store_adds(r: &mut StdRng, apex: &str, class_v: u16) -> Vec<Add> {
         owners.push(apex.splitn(2, '.').nth(1).map(|p| if p.is_empty() { ".".to_string() } else { p.to_string() }).unwrap());
         owners.push(format!("x{}", apex));
         owners.push(format!("{}tail.", apex));
+        if let Some(t) = tail_trick(apex) { owners.push(t); }
     }
     let mut adds = Vec::new();
+    // four zones in ten: a delegation with another NS RRset below its cut (occluded), whose name server lies at or
+    // below its own owner, each with or without addresses - the glue rules look at the referral, not just at names
+    if r.gen_bool(0.4) {
+        let del = sub("del", apex);
+        let deep = format!("deep.{}", del);
+        let upper_target = if r.gen_bool(0.5) { format!("ns.{}", del) } else { sub("ns", apex) };
+        let lower_target = if r.gen_bool(0.7) { format!("ns.{}", deep) } else { deep.clone() };
+        adds.push(Add { owner: del.clone(), ty: 2, class: class_v, ttl: 60, rdata: w(&upper_target) });
+        adds.push(Add { owner: deep.clone(), ty: 2, class: class_v, ttl: 60, rdata: w(&lower_target) });
+        let addr = |c: u16| if c == 3 { let mut v = w("ch."); v.extend_from_slice(&[0, 1]); v } else { vec![10, 0, 0, 9] };
+        if r.gen_bool(0.5) { adds.push(Add { owner: upper_target.clone(), ty: 1, class: class_v, ttl: 60, rdata: addr(class_v) }); }
+        if r.gen_bool(0.4) { adds.push(Add { owner: lower_target.clone(), ty: 1, class: class_v, ttl: 60, rdata: addr(class_v) }); }
+        owners.push(del);
+        owners.push(deep);
+    }
     let nrec = r.gen_range(2..28);
     for _ in 0..nrec {
         let o0 = if r.gen_bool(0.25) { apex.to_string() } else { owners.choose(r).unwrap().clone() };
@@ -337,6 +353,7 @@ fn lookup(r: &mut StdRng, n: usize, out: &mut Out) {
             outside.push(apex.splitn(2, '.').nth(1).map(|p| if p.is_empty() { ".".to_string() } else { p.to_string() }).unwrap());
             outside.push(format!("x{}", apex));
             outside.push(format!("a.x{}", apex));
+            if let Some(t) = tail_trick(apex) { outside.push(format!("a.{}", t)); outside.push(t); }
         }
         if qs.len() > 260 {
             qs.shuffle(r);
